@@ -130,6 +130,19 @@ Proof.
   destruct X as (outs & -> & F). exists outs. split; [reflexivity|exact F].
 Qed.
 
+(* version-2 packages: the reference order is the cube's (flux.fits), and every named file is aligned with it (F38) *)
+Definition read_files_ref (ref : list K) (files : list (list (K * D))) : option (list (list (K * D))) := align_all ref files.
+
+Theorem read_files_ref_spec ref files : NoDup ref -> Forall (fun f => Permutation (names_of f) ref) files ->
+  exists outs, read_files_ref ref files = Some outs /\
+               Forall2 (fun out f => names_of out = ref /\ Permutation out f) outs files.
+Proof.
+  intros N H. unfold read_files_ref.
+  induction H as [|f r Hf _ IH]; [exists []; split; [reflexivity|constructor]|].
+  destruct IH as (os & Eo & Fo). destruct (align_by_name ref f N Hf) as (o & Ea & Hn & Po).
+  exists (o :: os). simpl. rewrite Ea, Eo. split; [reflexivity|]. constructor; [split; assumption|exact Fo].
+Qed.
+
 End R.
 
 Example read_files_example :
